@@ -79,6 +79,9 @@ func (r *propRun) confirmNative(j Job, v interp.Violation) (bool, *nativeResult,
 }
 
 func (r *propRun) runJob(j Job) {
+	if os.Getenv("VCHECK_FORCEGATED") != "" && j.Fn2 == "" {
+		j.Replay = "gated" // debugging aid: confirm everything under the gates
+	}
 	fmt.Printf("== job %s: %s.%s", j.Name, j.Pkg, j.Fn)
 	if j.Fn2 != "" {
 		fmt.Printf(" + recovery %s (crashes<=%d tears=%v)", j.Fn2, j.MaxCrashes, j.Tears)
@@ -219,7 +222,7 @@ func (r *propRun) runJob(j Job) {
 		}
 		ok, nr, out := r.confirmNative(j, v)
 		if !ok {
-			if r.verbose && nr == nil {
+			if r.verbose {
 				fmt.Printf("      native replay output:\n%s\n", tail(out, 40))
 			}
 			continue
